@@ -3,6 +3,7 @@
 //! case:  op | inputs for the Lean model | implementation result | oracle verdict
 mod util;
 mod c01;
+mod c02;
 mod c03;
 mod c04;
 mod c05;
@@ -33,6 +34,7 @@ fn main() {
     let mut rng = Rng::new(seed ^ (prop.bytes().fold(0u64, |a, b| a.wrapping_mul(131).wrapping_add(b as u64))));
     match prop {
         "C01" => c01::run(&mut rng, n),
+        "C02" => c02::run(&mut rng, n, args.iter().any(|a| a == "--thorough")),
         "C03" => c03::run(&mut rng, n),
         "C04" => c04::run(&mut rng, n),
         "C05" => c05::run(&mut rng, n),
